@@ -121,8 +121,26 @@ def keyword_named_variables_case():
     return None
 
 
+def io_statements_case():
+    """input/output and other keyword statements written with parentheses (`rewind(u)`, `backspace(unit=u)`, `flush(u)`, ...) are statements, not references to procedures"""
+    stmts = ["open(unit=u, file='f')", "rewind(u)", "rewind(unit=u, iostat=ios)", "backspace(u)", "endfile(u)", "flush(u)", "inquire(unit=u, opened=ok)", "wait(u)", "close(u)",
+             "read(u, *) x", "write(u, *) x", "allocate(buf(3))", "deallocate(buf)", "nullify(p)"]
+    src = ("program main\n  implicit none\n  integer :: u, ios\n  logical :: ok\n  real :: x\n  real, allocatable :: buf(:)\n  real, pointer :: p\n  " + "\n  ".join(stmts) + "\n  call work(x)\ncontains\n"
+           "  subroutine work(y)\n    real :: y\n    rewind(u)\n  end subroutine work\nend program main\n")
+    try:
+        proj = realrun.build_project({"src/main.f90": src}, proc_internals=True)
+        p = proj.programs[0]
+        got = {"main": sorted(c if isinstance(c, str) else c.name for c in p.calls), "work": sorted(c if isinstance(c, str) else c.name for c in p.subroutines[0].calls)}
+    except Exception as e:
+        got = f"{type(e).__name__}: {e}"
+    want = {"main": ["work"], "work": []}
+    if got != want:
+        return {"confirmed": True, "input": {"source": src}, "actual": got, "expected": want, "how": "real Project + correlate: calls of a program that consists of keyword statements written with parentheses"}
+    return None
+
+
 def search():
-    hit = extra_vartypes_case() or keyword_named_variables_case()
+    hit = extra_vartypes_case() or keyword_named_variables_case() or io_statements_case()
     if hit:
         return hit
     for group in cases():
